@@ -17,7 +17,24 @@ import (
 
 // c16RunH2 runs the real ClientConn.encodeHeaders and decodes the header block with the
 // reference HPACK decoder: the field list in the order a peer receives it.
-func c16RunH2(tc *verifh.C01FieldCase) (fields [][2]string, err error, perr string) {
+// c16Conn is one HTTP/2 connection as far as header compression is concerned: the client's
+// ClientConn (HPACK encoder + its dynamic table + the peer's advertised header list limit) and
+// the peer's HPACK decoder. A sequence of requests shares it, as on a real reused connection.
+type c16Conn struct {
+	cc  *ClientConn
+	dec *hpack.Decoder
+}
+
+func c16NewConn(limit uint64) *c16Conn {
+	cc := &ClientConn{peerMaxHeaderListSize: ^uint64(0)}
+	if limit != 0 {
+		cc.peerMaxHeaderListSize = limit
+	}
+	cc.henc = hpack.NewEncoder(&cc.hbuf)
+	return &c16Conn{cc: cc, dec: hpack.NewDecoder(4096, nil)}
+}
+
+func c16RunH2(conn *c16Conn, tc *verifh.C01FieldCase) (fields [][2]string, err error, perr string) {
 	u, e := url.Parse(tc.RawURL)
 	if e != nil {
 		return nil, e, "bad-url"
@@ -30,8 +47,7 @@ func c16RunH2(tc *verifh.C01FieldCase) (fields [][2]string, err error, perr stri
 			req.Body = io.NopCloser(strings.NewReader("x"))
 		}
 	}
-	cc := &ClientConn{peerMaxHeaderListSize: ^uint64(0)}
-	cc.henc = hpack.NewEncoder(&cc.hbuf)
+	cc := conn.cc
 	var block []byte
 	p, bad := verifh.Safely(func() {
 		block, err = cc.encodeHeaders(req, tc.Gzip, "", actualContentLength(req), nil)
@@ -42,8 +58,8 @@ func c16RunH2(tc *verifh.C01FieldCase) (fields [][2]string, err error, perr stri
 	if err != nil {
 		return nil, err, ""
 	}
-	dec := hpack.NewDecoder(4096, nil)
-	hf, derr := dec.DecodeFull(block)
+	// a refused request sends nothing: the peer's decoder only ever sees the blocks of accepted requests
+	hf, derr := conn.dec.DecodeFull(append([]byte(nil), block...))
 	if derr != nil {
 		return nil, nil, "reference HPACK decoder rejects the block: " + derr.Error()
 	}
@@ -62,17 +78,48 @@ func c16H2ErrKind(err error) string {
 		return "err:path"
 	case strings.Contains(s, "invalid HTTP header"):
 		return "err:header"
+	case err == errRequestHeaderListSize:
+		return "err:toolarge"
 	}
 	return "err:other"
 }
 
 func c16LaneH2(t *testing.T, s *verifh.Session, profile string, n int, need map[string]int) {
 	r := s.Rand()
+	var conn *c16Conn
+	var prev *verifh.C01FieldCase
+	left := 0
 	for i := 0; i < n; i++ {
-		tc := verifh.C01GenFieldCase(r, profile)
-		fields, err, perr := c16RunH2(tc)
-		human := fmt.Sprintf("h2 %q %q host=%q hdr=%q cl=%d body=%v/%v gzip=%v", tc.Method, tc.RawURL, tc.Host, tc.Header, tc.CL, tc.HasBody, tc.NoBody, tc.Gzip)
+		// sequences of 1..16 requests on one connection; a third of the connections have a peer
+		// that advertises a small SETTINGS_MAX_HEADER_LIST_SIZE
+		if left == 0 {
+			var limit uint64
+			if r.Intn(3) == 0 {
+				limit = uint64(verifh.Pick(r, []int{300, 600, 1000, 2048, 4096}))
+			}
+			conn = c16NewConn(limit)
+			prev = nil
+			left = 1 + r.Intn(16)
+			need["connections"]++
+			need["toolarge-on-this-conn"] = 0
+		}
+		left--
+		var tc *verifh.C01FieldCase
+		if prev != nil && r.Intn(3) != 0 {
+			tc = verifh.C01MutateFieldCase(r, prev)
+		} else {
+			tc = verifh.C01GenFieldCase(r, profile)
+		}
+		if conn.cc.peerMaxHeaderListSize != ^uint64(0) {
+			tc.Limit = conn.cc.peerMaxHeaderListSize
+		} else {
+			tc.Limit = 0
+		}
+		prev = tc
+		fields, err, perr := c16RunH2(conn, tc)
+		human := fmt.Sprintf("h2 (request %d on its connection, peer limit %d) %q %q host=%q hdr=%q cl=%d body=%v/%v gzip=%v", need["connections"], tc.Limit, tc.Method, tc.RawURL, tc.Host, tc.Header, tc.CL, tc.HasBody, tc.NoBody, tc.Gzip)
 		if perr != "" {
+			left = 0 // the compression context of this connection is gone
 			s.Crash(human, human, perr, "")
 			continue
 		}
@@ -104,6 +151,16 @@ func c16LaneH2(t *testing.T, s *verifh.Session, profile string, n int, need map[
 		key := strings.SplitN(ans, " ", 2)[0]
 		s.Count(key)
 		need[key]++
+		if key == "ok" && need["toolarge-on-this-conn"] > 0 {
+			s.Count("ok-after-toolarge")
+			need["ok-after-toolarge"]++
+		}
+		if key == "err:toolarge" {
+			need["toolarge-on-this-conn"] = 1
+		}
+		if left == 0 {
+			need["toolarge-on-this-conn"] = 0
+		}
 		if len(tc.Header[verifh.C01HeaderOrderKey]) > 0 && err == nil {
 			s.Count("header-order")
 			need["header-order"]++
@@ -122,11 +179,11 @@ func c16LaneH2(t *testing.T, s *verifh.Session, profile string, n int, need map[
 // pseudo fields first and in the requested order, listed fields in list order).
 func TestVerif_C16_h2fields(t *testing.T) {
 	s := verifh.New(t, "C16", "h2fields",
-		"http.Request values: methods (standard, extension, empty, invalid, CONNECT), URLs (ports, IPv6, escapes, '*', opaque, no host), Host override valid/invalid, 0..60 header keys (canonical/non-canonical spellings of the same name, user-agent/cookie/connection-specific/bookkeeping names, invalid names, 0..3 values, bad values), header order lists (subset/superset/other case/duplicated/full) and pseudo-header order lists (permutations, subsets, supersets, duplicates, other case) in most cases, body unknown/known/NoBody, gzip on/off; non-trivial = a field list was produced")
+		"http.Request values: methods (standard, extension, empty, invalid, CONNECT), URLs (ports, IPv6, escapes, '*', opaque, no host), Host override valid/invalid, 0..60 header keys (canonical/non-canonical spellings of the same name, user-agent/cookie/connection-specific/bookkeeping names, invalid names, 0..3 values, bad values), header order lists (subset/superset/other case/duplicated/full) and pseudo-header order lists (permutations, subsets, supersets, duplicates, other case) in most cases, body unknown/known/NoBody, gzip on/off; the requests run in SEQUENCES of 1..16 on one connection (one ClientConn = one HPACK encoder with its dynamic table, one reference decoder on the peer side), two thirds of the requests derived from the previous one (shared name/value pairs), a third of the connections with a small peer SETTINGS_MAX_HEADER_LIST_SIZE (300..4096) so that blown-up requests are refused locally (errRequestHeaderListSize) and must leave no trace in what the peer decodes afterwards; non-trivial = a field list was produced")
 	need := map[string]int{}
 	c16LaneH2(t, s, "order", verifh.N(4000, 80000), need)
 	c16LaneH2(t, s, "plain", verifh.N(1500, 30000), need)
-	for _, b := range []string{"ok", "err:host", "err:header", "header-order", "pseudo-order"} {
+	for _, b := range []string{"ok", "err:host", "err:header", "err:toolarge", "ok-after-toolarge", "header-order", "pseudo-order"} {
 		if need[b] == 0 {
 			t.Errorf("lane did not reach bucket %q", b)
 		}
